@@ -104,9 +104,8 @@ func runProperty(opt *Options) int {
 	} else {
 		fmt.Fprintln(os.Stderr, "scratch:", scratch)
 	}
-	switch opt.Prop {
-	case "C02":
-		return runC02(opt)
+	if f, ok := propRunners[opt.Prop]; ok {
+		return f(opt)
 	}
 	fmt.Fprintf(os.Stderr, "property %s: no check registered\n", opt.Prop)
 	return 2
